@@ -321,7 +321,14 @@ func c48ExhaustiveMutations(t *testing.T, c *ev.Collector, pool *ref.OCSPPool, b
 				for _, mask := range masks {
 					m[pos] = b.der[pos] ^ mask
 					verdict, viol := c48Judge(b, m, 0, ver, region, true)
-					if viol == "" && region == "tbs" && verdict != "rejected" {
+					// With ver == nil a changed tbs length octet can make the (longer)
+					// tbsResponseData swallow signatureAlgorithm, signature and the head of
+					// certs, and the parser can find a SEQUENCE + BIT STRING pair further on
+					// (e.g. the embedded certificate's SubjectPublicKeyInfo) to stand in for
+					// them; what it then returns carries no certificate, so without an
+					// issuer no signature check is promised.  c48Judge already flags every
+					// accepted tbs substitution for which a check was due.
+					if viol == "" && region == "tbs" && verdict != "rejected" && !(ver == nil && verdict == "accepted(no signature check requested)") {
 						viol = "a modification inside tbsResponseData was not rejected: " + verdict
 					}
 					if viol != "" {
